@@ -31,7 +31,8 @@ fixes the token's **content** (the part of its raw text that is quoted text) and
     text proper: the innermost open bracket token (`LPAREN`, `StringExprStart`) is the HIDDEN
     `LPAREN` itself, and the token is not an operand of a macro statement nested in the call
     (`%str(%let a=b%%c;)`, `%str(%put %);)`: between a statement keyword and its `SEMI` the text
-    is macro-statement text, where `%` quotes nothing).  A `MacroString` anywhere inside the
+    is macro-statement text, where `%` quotes nothing; statements nest, `%str(%do %end;é%%)`:
+    the `%do` is still open after the `;` of `%end`).  A `MacroString` anywhere inside the
     call that *carries* a payload is always judged as `%str` text.
 
 Clauses
@@ -149,35 +150,43 @@ def closesStringExpr (ty : TokenType) : Bool :=
     || ty == .DateTimeLiteralExprEnd || ty == .NameLiteralExprEnd || ty == .TimeLiteralExprEnd
     || ty == .HexStringLiteralExprEnd
 
+/-- keywords that continue a `%do` statement rather than open a statement of their own -/
+def isDoContinuationKw (ty : TokenType) : Bool :=
+  ty == .KwmTo || ty == .KwmBy || ty == .KwmWhile || ty == .KwmUntil
+
 /-- One pass over the tokens with the stack of open bracket tokens.  A frame is
-`(bracket, stat)`; `stat` = the macro statement keyword with operands (`%let`, `%put`, `%if`,
-`%do`, … — not `%then/%else/%include/%list`) that was seen last directly in this frame and
-whose statement has not ended yet; a statement ends with the next `SEMI` directly in the
-frame, `%if` also with its `%then`.  The operands of such a nested statement are
-macro-statement text, in which `%` quotes nothing; they are not `%str` text.  A HIDDEN `RPAREN`
-closes the innermost `str` frame (and whatever was left open inside it); another `RPAREN`
-resp. a string-expression end closes the innermost frame if that is a `paren` resp. `dq`. -/
-def strPositions : List TokInfo → (stack : List (Bracket × Option TokenType)) → List StrPos
+`(bracket, stats)`; `stats` = the macro statements with operands that were opened directly in
+this frame and have not ended yet, innermost first.  A statement keyword with operands
+(`%let`, `%put`, `%if`, `%do`, … — not `%then/%else/%include/%list`) opens a statement, except
+that `%to/%by/%while/%until` inside an open statement continue it (`%do i=1 %to 3;`); the next
+`SEMI` directly in the frame ends the innermost open statement, `%then` ends an innermost `%if`.
+Statements nest (`%do %end; …` — the `%do` is still open after the `;` of `%end`).  The
+operands of such a nested statement are macro-statement text, in which `%` quotes nothing;
+they are not `%str` text.  A HIDDEN `RPAREN` closes the innermost `str` frame (and whatever
+was left open inside it); another `RPAREN` resp. a string-expression end closes the innermost
+frame if that is a `paren` resp. `dq`. -/
+def strPositions : List TokInfo → (stack : List (Bracket × List TokenType)) → List StrPos
   | [], _ => []
   | t :: r, stack =>
-    let (top, stat) := match stack with
+    let (top, stats) := match stack with
       | (b, st) :: _ => (some b, st)
-      | [] => (none, none)
-    let setStat (st : Option TokenType) := match stack with
+      | [] => (none, [])
+    let setStats (st : List TokenType) := match stack with
       | (b, _) :: rest => (b, st) :: rest
       | [] => []
     let stack' :=
-      if t.ty == .LPAREN then ((if t.chan == .HIDDEN then Bracket.str else Bracket.paren), none) :: stack
+      if t.ty == .LPAREN then ((if t.chan == .HIDDEN then Bracket.str else Bracket.paren), []) :: stack
       else if t.ty == .RPAREN then
         (if t.chan == .HIDDEN then (stack.dropWhile (fun f => f.1 != Bracket.str)).drop 1
          else if top == some .paren then stack.drop 1 else stack)
-      else if t.ty == .StringExprStart then (Bracket.dq, none) :: stack
+      else if t.ty == .StringExprStart then (Bracket.dq, []) :: stack
       else if closesStringExpr t.ty then (if top == some .dq then stack.drop 1 else stack)
-      else if t.ty == .SEMI then setStat none
-      else if t.ty == .KwmThen then (if stat == some .KwmIf then setStat none else stack)
-      else if isMacroStatKw t.ty && !isBareStatKw t.ty then setStat (some t.ty)
+      else if t.ty == .SEMI then setStats (stats.drop 1)
+      else if t.ty == .KwmThen then (if stats.head? == some .KwmIf then setStats (stats.drop 1) else stack)
+      else if isMacroStatKw t.ty && !isBareStatKw t.ty then
+        (if isDoContinuationKw t.ty && !stats.isEmpty then stack else setStats (t.ty :: stats))
       else stack
-    ⟨stack.any (·.1 == Bracket.str), top == some .str && stat.isNone⟩ :: strPositions r stack'
+    ⟨stack.any (·.1 == Bracket.str), top == some .str && stats.isEmpty⟩ :: strPositions r stack'
 
 /-- one token: the token, its raw text, its position relative to `%str`/`%nrstr` calls -/
 structure Item where
